@@ -244,7 +244,7 @@ func init() {
 		if good.V2 == nil || consensus.ValidateBlock(sc.s, good, sc.supplement(good)) != nil {
 			return
 		}
-		alt, err := decodeBlock(encodeBlock(good))
+		alt, err := decodeBlockSafe(encodeBlock(good))
 		if err != nil {
 			return
 		}
